@@ -138,9 +138,16 @@ def check_map(rec, rng, rules, strict, merge, rd, script, scheme, sub):
             rec.observe("hostlike_paths")
         method = "GET" if ws else rng.choice(["GET", "GET", "GET", "POST", "HEAD", "DELETE"])
         rec.observe("method:" + method)
-        case = dict(base_case, path=p, query=qkind, method=method)
+        # the query reaches the router either with the match() call or when the adapter is bound (bind_to_environ)
+        bound = qkind != "none" and rng.random() < 0.35
+        if bound:
+            A, mkw = m.bind("h.com", script, subdomain=sub, url_scheme=scheme, query_args=q), {}
+            rec.observe("query_given_at_bind_time")
+        else:
+            A, mkw = ad, {"query_args": q}
+        case = dict(base_case, path=p, query=qkind, method=method, query_bound_to_adapter=bound)
         try:
-            ad.match(p, method=method, query_args=q)
+            A.match(p, method=method, **mkw)
             rec.observe("no_redirect")
             continue
         except RequestRedirect as e:
@@ -194,7 +201,7 @@ def check_map(rec, rng, rules, strict, merge, rd, script, scheme, sub):
         while hops < 6:
             path = unquote(urlsplit(cur).path[len(sp):])
             try:
-                final = ad.match(path, method=method, query_args=q)
+                final = A.match(path, method=method, **mkw)
                 break
             except RequestRedirect as e2:
                 hops += 1
